@@ -10,10 +10,25 @@ func init() {
 			if tier == "thorough" {
 				steps = 4
 			}
-			return []Oblig{{Harness: "vh_C19_loop", Globals: map[string]int{"vhMaxSteps": steps}, Unroll: steps + 4}}
+			var r []Oblig
+			for mode := 0; mode <= 3; mode++ {
+				for fstep := 0; fstep <= 2; fstep++ {
+					if mode <= 1 && fstep > 0 {
+						continue
+					}
+					for panicAt := -1; panicAt <= 2; panicAt++ {
+						if tier != "thorough" && panicAt > 0 && mode > 0 {
+							continue
+						}
+						r = append(r, Oblig{Harness: "vh_C19_loop", Unroll: steps + 4, MaxPaths: 60000,
+							Globals: map[string]int{"vhMaxSteps": steps, "vhMode": mode, "vhFStep": fstep, "vhPanicAt": panicAt}})
+					}
+				}
+			}
+			return r
 		},
-		Bounds:      []string{"<= 4 (quick) / 6 (thorough) exec steps", "3 exec closures with distinct code identity, any successor relation", "any subset of the 3 nodes carries a line breakpoint", "mode run; at a breakpoint the session either resumes or is terminated (nondeterministic select)"},
+		Bounds:      []string{"<= 4 (quick) / 6 (thorough) exec steps", "3 exec closures with distinct code identity, any successor relation", "any subset of the 3 nodes carries a line breakpoint", "session mode: run, or a pending step-into / step-over / step-out issued at depth 0..2; at every stop the client either resumes or terminates", "any one of the first three steps may panic (caller recovers)"},
 		Assumptions: []string{"exec steps are opaque", "reflect.Value.Pointer of a func is its code identity (one per function literal)", "select in (*Debugger).exec picks any ready case"},
-		Outside:     []string{"Debug's goroutine and event plumbing", "SetBreakpoints' line mapping", "step modes (stepInto/Over/Out) beyond run", "program output on real programs"},
+		Outside:     []string{"Debug's goroutine and event plumbing", "SetBreakpoints' line mapping", "program output on real programs"},
 	}
 }
